@@ -584,7 +584,7 @@ def generate(rng, tier_, n_calls, fns=None, only=None):
 def run(rep, tier_, rng):
     load_known_b(rep)
     TIER[0] = tier_
-    n_calls = 180 if tier_ == "quick" else 2200
+    n_calls = 230 if tier_ == "quick" else 2200
     t0 = time.time()
     focus = [f for f in os.environ.get("VERIF_C12_FUNCS", "").split(",") if f in R] or None   # debugging aid: sample only these
     insts, calls, direct, stats = generate(rng, tier_, n_calls, fns=focus)
